@@ -73,7 +73,7 @@ query_uid (const char *user, uid_t *uid_ptr)
         else if ((user == end_ptr) || (*end_ptr != '\0')) {
             rv = -1;
         }
-        else if ((l < 0) || ((unsigned int) l > UID_MAXIMUM)) {
+        else if ((l < 0) || ((unsigned long) l > UID_MAXIMUM)) {
             rv = -1;
         }
         else {
@@ -120,7 +120,7 @@ query_gid (const char *group, gid_t *gid_ptr)
         else if ((group == end_ptr) || (*end_ptr != '\0')) {
             rv = -1;
         }
-        else if ((l < 0) || ((unsigned int) l > GID_MAXIMUM)) {
+        else if ((l < 0) || ((unsigned long) l > GID_MAXIMUM)) {
             rv = -1;
         }
         else {
